@@ -325,8 +325,53 @@ def hist_spec(gtype):
             "envs": envs, "space": space, "state": [2.0, 3.0, 5.0, 7.0, 11.0, 13.0], "chemostats": [0, 0, 0, 0, 0, 0]}
 
 
+def check_script_history(case):
+    """The SAME script object is simulated, its system modified through the public setters, and simulated again
+    (a parameter scan); every run's Euler step must follow the law of the system as it is at that moment."""
+    import copy
+    out = []
+    spec = copy.deepcopy(hist_spec(case["gtype"]))
+    try:
+        script = models.build_script({"system": spec, "t_sample": [0], "time_step": DT, "t_max": 0, "policy": "on_iteration"})
+    except Exception as e:
+        return [("C01:build:unexpected-exception", "%s: %s" % (type(e).__name__, e))]
+    system = script.system            # the script's own copy: what the engine will be given
+    engine = eng.make_engine("euler")
+    for q in range(len(case["ops"]) + 1):
+        if q > 0:
+            try:
+                apply_hist_op(system, spec, HIST_OPS[case["ops"][q - 1]])
+            except Exception as e:
+                return out + [("C01:history:setter-exception:%s" % HIST_OPS[case["ops"][q - 1]][0], "%s: %s" % (type(e).__name__, e))]
+        f, sc = ratelaw.rhs(spec, apply_chemostats=True)
+        last = HIST_OPS[case["ops"][q - 1]][0] if q > 0 else "construction"
+        try:
+            if case.get("warm"):
+                for r in system.network.reactions:      # what make_dxdtf / the engines do internally
+                    r.split()
+                kinetics.compute_dstatedt(system)
+            traj, nit = eng.run_to_completion(engine, script)
+            t, d = models.traj_arrays(traj)
+            got = [(b - a_) / DT for a_, b in zip(d[0], d[1])]
+            extra = [8e-16 * (abs(a_) + abs(b)) / DT for a_, b in zip(d[0], d[1])]
+            before = len(out)
+            _cmp("euler-step:script-history-%s:after-%s" % (case["gtype"], last), got, f, sc, extra, out)
+            if len(out) > before:
+                return out
+            a = kinetics.compute_dstatedt(system)
+            _cmp("compute_dstatedt:script-history-%s:after-%s" % (case["gtype"], last), [float(v) for v in a.value], f, sc, [0.0] * len(f), out)
+            if len(out) > before:
+                return out
+        except Exception as e:
+            out.append(("C01:euler:script-history:unexpected-exception", "%s: %s" % (type(e).__name__, e)))
+            return out
+    return out
+
+
 def check_history(case):
     import copy
+    if case.get("script_object"):
+        return check_script_history(case)
     out = []
     spec = hist_spec(case["gtype"])
     try:
@@ -377,6 +422,14 @@ def gen_history(tier):
             for b in range(nops):
                 for ob in ((False, True) if tier == "thorough" else (True,)):
                     yield {"sub": "history-" + gtype, "history": True, "gtype": gtype, "ops": [a, b], "observe_before": ob}
+        # the same script object simulated between modifications of its system (parameter scan)
+        for a in range(nops):
+            for warm in (False, True):
+                yield {"sub": "script-history-" + gtype, "history": True, "script_object": True, "gtype": gtype, "ops": [a], "warm": warm}
+        for a in range(nops):
+            for b in range(nops):
+                if tier == "thorough" or (a + b) % 2 == 0:
+                    yield {"sub": "script-history-" + gtype, "history": True, "script_object": True, "gtype": gtype, "ops": [a, b], "warm": (a + b) % 4 < 2}
 
 
 _CASES = None
@@ -420,7 +473,8 @@ def run(ctx):
             ("diffusion law on graphs: all simple graphs on 1..4 nodes x environment maps x D patterns", gen_diffusion_graph),
             ("layout: all ordered pairs of an 8-reaction catalogue x 3 environment/cell configurations", gen_layout),
             ("histories: one system object modified through its public setters (state entry, kf, kr, D, cell environment, volume, "
-             "chemostat flag) - every single modification and every ordered pair of 8 - then observed (kinetics + Euler step)", gen_history)]
+             "chemostat flag) - every single modification and every ordered pair of 8 - then observed (kinetics + Euler step); and "
+             "the same script object simulated before and after each modification of its system (parameter scan)", gen_history)]
     _CASES = []
     sizes = []
     for name, g in gens:
